@@ -177,3 +177,119 @@ func zeroTTL(r *mon.Run, out *childOut) {
 		out.res.Nontrivial = append(out.res.Nontrivial, fmt.Sprintf("zttl|%v|%d", group, run%5))
 	}
 }
+
+// bulkSweep: tables of many names with a history of removals; an expiry sweep removes every name
+// whose lease has lapsed and keeps every other one, however many it removes in one go.
+func bulkSweep(r *mon.Run, out *childOut) {
+	for run := 0; run < r.Pick(24, 240); run++ {
+		rng := r.Rand(fmt.Sprintf("bulksweep|%d", run))
+		t := nbtns.NewNetBIOSNameServer(run%2 == 0)
+		n := []int{40, 70, 130, 300, 1000}[run%5]
+		released := []int{0, 10, 63, 64, 65, 200}[run%6]
+		for i := 0; i < released; i++ {
+			nm := fmt.Sprintf("REL%04d", i)
+			t.RegisterName(nm, nbtns.Unique, bigAddr(i%7), time.Hour)
+			t.ReleaseName(nm, bigAddr(i%7))
+		}
+		lapsed := map[string]bool{}
+		for i := 0; i < n; i++ {
+			nm := fmt.Sprintf("BULK%04d", i)
+			ttl := time.Hour
+			if rng.IntN(100) < []int{10, 50, 90, 100}[run%4] {
+				ttl = -time.Hour
+				lapsed[nm] = true
+			}
+			ty := nbtns.Unique
+			if i%3 == 0 {
+				ty = nbtns.Group
+			}
+			t.RegisterName(nm, ty, bigAddr(i%7), ttl)
+		}
+		for sweep := 0; sweep < 2; sweep++ {
+			t.CleanExpiredNames()
+			snap := t.VerifSnapshot()
+			out.res.Evals++
+			kept, lost := 0, 0
+			for i := 0; i < n; i++ {
+				nm := fmt.Sprintf("BULK%04d", i)
+				_, in := snap[nm]
+				_, _, qerr := t.QueryName(nm)
+				if lapsed[nm] && (in || qerr == nil) {
+					kept++
+				}
+				if !lapsed[nm] && (!in || qerr != nil) {
+					lost++
+				}
+			}
+			cs := map[string]any{"names": n, "lapsed": len(lapsed), "released_before": released, "sweep": sweep + 1}
+			if kept > 0 {
+				out.violation("W3:bulk-sweep:expired-name-kept", fmt.Sprintf("%d names (%d lapsed) after %d earlier releases: sweep #%d left %d lapsed names in the table", n, len(lapsed), released, sweep+1, kept), cs, 1)
+			}
+			if lost > 0 {
+				out.violation("W3:bulk-sweep:live-name-removed", fmt.Sprintf("%d names (%d lapsed) after %d earlier releases: sweep #%d removed %d names whose lease had an hour to run", n, len(lapsed), released, sweep+1, lost), cs, 1)
+			}
+			if kept > 0 || lost > 0 {
+				return
+			}
+		}
+		out.res.Nontrivial = append(out.res.Nontrivial, fmt.Sprintf("bulksweep|%d|%d|%d", n, released, run%4))
+	}
+}
+
+// suffixNames: full 16-octet names that differ in their last octet (the NetBIOS suffix: 0x00
+// workstation, 0x1B/0x1C/0x1D/0x1E domain and browser names, 0x20 server). The table keys on the
+// name; what type a name has is what its registrations said, whatever its suffix.
+func suffixNames(r *mon.Run, out *childOut) {
+	var names []string
+	for _, sfx := range []byte{0x00, 0x03, 0x1B, 0x1C, 0x1D, 0x1E, 0x20} {
+		names = append(names, "CORPDOMAIN     "+string([]byte{sfx}))
+	}
+	for run := 0; run < r.Pick(80, 1500); run++ {
+		rng := r.Rand(fmt.Sprintf("suffix|%d", run))
+		t := nbtns.NewNetBIOSNameServer(false)
+		st := make([]rec, len(names))
+		var trace []string
+		for s := 0; s < 40; s++ {
+			ni := rng.IntN(len(names))
+			a := rng.IntN(3)
+			var o op
+			var got outcome
+			isQ := false
+			switch rng.IntN(6) {
+			case 0, 1, 2:
+				ty, lt := uint8(tU), nbtns.Unique
+				if rng.IntN(2) == 0 {
+					ty, lt = tG, nbtns.Group
+				}
+				o = op{Kind: opRegister, Name: ni, Type: ty, Addr: a}
+				got = outcome{Err: t.RegisterName(names[ni], lt, bigAddr(a), time.Hour) != nil}
+			case 3:
+				o = op{Kind: opRelease, Name: ni, Addr: a}
+				got = outcome{Err: t.ReleaseName(names[ni], bigAddr(a)) != nil}
+			default:
+				o = op{Kind: opQuery, Name: ni}
+				isQ = true
+				ips, ty, err := t.QueryName(names[ni])
+				if err != nil {
+					got = outcome{Err: true}
+				} else {
+					m, bad := ownersMask(ips, 3)
+					got = outcome{Owners: m, Bad: uint8(bad), Type: tU}
+					if ty == nbtns.Group {
+						got.Type = tG
+					}
+				}
+			}
+			trace = append(trace, fmt.Sprintf("%s[suffix %#02x]", o, names[ni][15]))
+			ns, want, nd := step(st[ni], o, false)
+			out.res.Evals++
+			if !agrees(want, got, nd) {
+				out.violation("W3:name-suffix:"+kindName[o.Kind], fmt.Sprintf("16-octet names that differ in their suffix octet: after %v the call returned %s, the model says %s", trace, describeOutcome(got, isQ), describeOutcome(want, isQ)),
+					map[string]any{"trace": trace}, 1)
+				break
+			}
+			st[ni] = ns
+		}
+		out.res.Nontrivial = append(out.res.Nontrivial, fmt.Sprintf("suffix|%d", run))
+	}
+}
